@@ -90,6 +90,30 @@ Definition last_key (r : ctxres) : option key :=
 
 Definition all_true (m : list bool) : bool := forallb (fun b => b) m.
 
+(* one array of the payload: data (unguarded) or an axis (guarded: `if r.tinp.size:` — an axis the
+   stream does not have arrives as an empty array and is skipped).  numpy: the boolean index must be
+   as long as the accumulator (IndexError otherwise: it may have been replaced by an empty array) and
+   the values must fit (ValueError otherwise). *)
+Definition is_nil {A} (l : list A) : bool := match l with [] => true | _ => false end.
+
+Definition place (guarded : bool) (m : list bool) (vals : list obs) (old : list (option obs))
+  : option (list (option obs)) :=
+  if (guarded && is_nil vals)%bool then Some old
+  else if (scatter_ok m vals && Nat.eqb (length old) (length m))%bool then Some (scatter m vals old)
+  else None.
+
+Fixpoint place_all (guarded : bool) (m : list bool) (pay : list (list obs)) (old : list (list (option obs)))
+  : option (list (list (option obs))) :=
+  match pay, old with
+  | v :: pay', o :: old' =>
+      match place guarded m v o, place_all true m pay' old' with
+      | Some x, Some r => Some (x :: r)
+      | _, _ => None
+      end
+  | [], [] => Some []
+  | _, _ => None
+  end.
+
 Definition pay_step (st : option (list (key * list (list (option obs))))) (r : ctxres)
   : option (list (key * list (list (option obs)))) :=
   match st with
@@ -103,13 +127,10 @@ Definition pay_step (st : option (list (key * list (list (option obs))))) (r : c
           else
             let n := length (r_mask r) in
             let old := match find k s with Some a => a | None => map (fun _ => tab n (fun _ => None)) (r_pay r) end in
-            (* numpy: the boolean index must be as long as the accumulator (IndexError otherwise: the
-               accumulator may have been replaced by an empty array) and the values must fit *)
-            if (forallb (scatter_ok (r_mask r)) (r_pay r)
-                && forallb (fun a => Nat.eqb (length a) n) old
-                && Nat.eqb (length old) (length (r_pay r)))%bool
-            then Some (upd k (map (fun pa => scatter (r_mask r) (fst pa) (snd pa)) (combine (r_pay r) old)) s)
-            else None
+            match place_all false (r_mask r) (r_pay r) old with   (* data first, then the four axes *)
+            | Some a => Some (upd k a s)
+            | None => None
+            end
       end
   end.
 
